@@ -176,12 +176,15 @@ class MembersFamily(Family):
     name = "ClassIDToMembersLoader"
 
     def make(self, base, icap, bcap):
-        return _MembersLoader(None, ["class_id", "field_name", "field_states"], base, icap, bcap)
+        # the real class with the schema the pipeline passes (Loader.__init__: ClassIDToMembersLoader(options, [], ...))
+        return ld_mod.ClassIDToMembersLoader(None, [], base, icap, bcap)
 
     def content(self, xs):
         return {f"f{i}": {x} for i, x in enumerate(xs)}
 
     def norm(self, got):
+        if isinstance(got, str):
+            return got
         if got is None or (isinstance(got, list) and not got):
             return []
         return [[k, sorted(_num(v) for v in vs)] for k, vs in sorted(got.items())]
@@ -190,13 +193,15 @@ class MembersFamily(Family):
         return [[f"f{i}", [x]] for i, x in enumerate(xs)]
 
 
-class _MembersLoader(ld_mod.ClassIDToMembersLoader):
-    # the pipeline instantiates it through Loader with the bundle keyed by class_id
-    def query_flattened_item_when_loading(self, class_id, bundle_data):
-        return bundle_data.query_index_column_value("class_id", class_id)
+FAMILIES = {"unit": UnitLevelFamily(), "avail": AvailFamily(), "members": MembersFamily()}
 
 
-FAMILIES = {"unit": UnitLevelFamily(), "avail": AvailFamily()}
+def _get(ld, key):
+    """a read that ends the process (util.error_and_quit) is a read that does not return what was saved"""
+    try:
+        return ld.get_item_by_id(key)
+    except SystemExit:
+        return "process terminated by error_and_quit"
 
 
 def _num(v):
@@ -225,7 +230,7 @@ def loader_history(fam_name, base, icap, bcap, max_rows, ops, fail_write_at=-1, 
             ld.save(_id, fam.content(xs))
             model[_id] = fam.want(xs)
         elif k == 1:
-            got = fam.norm(ld.get_item_by_id(_id))
+            got = fam.norm(_get(ld, _id))
             want = model.get(_id, [])
             if got != want:
                 return f"step {i}: get({_id}) = {got} but the content most recently saved is {want}"
@@ -237,11 +242,11 @@ def loader_history(fam_name, base, icap, bcap, max_rows, ops, fail_write_at=-1, 
             ld = fam.make(base, icap, bcap)
             ld.restore_indexing()
             for key in sorted(model):
-                got = fam.norm(ld.get_item_by_id(key))
+                got = fam.norm(_get(ld, key))
                 if got != model[key]:
                     return f"step {i}: after export + restore into a fresh loader get({key}) = {got}, saved {model[key]}"
     for key in sorted(model):
-        got = fam.norm(ld.get_item_by_id(key))
+        got = fam.norm(_get(ld, key))
         if got != model[key]:
             return f"end: get({key}) = {got} but the content most recently saved is {model[key]}"
     # epilogue (the same for every history): what a later phase does with the workspace - restore, add one more item,
@@ -252,7 +257,7 @@ def loader_history(fam_name, base, icap, bcap, max_rows, ops, fail_write_at=-1, 
         ld = fam.make(base, icap, bcap)
         ld.restore_indexing()
         for key in sorted(model):
-            got = fam.norm(ld.get_item_by_id(key))
+            got = fam.norm(_get(ld, key))
             if got != model[key]:
                 return (f"epilogue {phase}: after export + restore into a fresh loader get({key}) = {got}, "
                         f"saved {model[key]}")
